@@ -799,7 +799,11 @@ class TransferManager(BaseManager):
             was received
         :param request: transfer request object for the given transfer
         """
-        await transfer.state.initialize()
+        if not await transfer.state.initialize():
+            # The transfer left the state in which the request was accepted
+            # (aborted, paused, ...) while this task was waiting for the state
+            # lock: there is nothing to initialize
+            return
 
         transfer.filesize = request.filesize
 
